@@ -270,32 +270,73 @@ def run_ecdsa(ctx, spec):
       continue
     sg, descs = workloads.ecdsa_hostile_batch(rng, rng.choice([2, 4, 7]))
     _history(ctx, 'ecdsa', sg, rng, h)
-    # issuer-key verdict == verdict of the EC checks on that key (fresh pb)
-    for s in sg:
-      ctx.count('evaluations')
-      ent = gen.entries(s.test_info).get('CheckIssuerKey')
-      key = gen.pb2().ECKey(ec_info=s.issuer_key_info)
-      paranoid.CheckAllEC([key])
-      from paranoid_crypto.lib import util
-      hs = util.GetHighestSeverity(key.test_info)
-      if ent is None:
-        ctx.violation('issuer-key-entry-missing', '', {'descs': descs})
-        continue
-      pre = [e for e in s.test_info.test_results if e.test_name ==
-             'CheckRetiredLongAgo']
-      if pre or s.test_info.paranoid_lib_version in ('0.9.0', '1.0.0-old',
-                                                     'v0'):
-        continue    # pre-annotated: only monotone clauses apply
-      ctx.count('issuer_verdicts_compared')
-      if ent[0] != bool(key.test_info.weak) or (ent[0] and ent[1] != hs) or (
-          not ent[0] and ent[1] != 0):
-        ctx.violation('issuer-key-verdict-differs-from-ec-checks',
-                      'signature says (%s, severity %d); CheckAllEC on the '
-                      'key: weak=%s highest severity %r' % (
-                          ent[0], ent[1], key.test_info.weak, hs),
-                      {'descs': descs, 'curve': s.issuer_key_info.curve_type,
-                       'x': s.issuer_key_info.x})
+    _issuer_verdicts(ctx, sg, descs)
+    # a later call on fresh protobufs: an issuer seen before (then healthy)
+    # now next to a new issuer whose private key is close to it - the EC
+    # verdict of a key depends on the other keys of the batch
+    if h % 2 == 0:
+      from vp import sigs as vsigs
+      c = rng.choice(['CURVE_SECP256R1', 'CURVE_SECP256K1'])
+      n = gen.model_curve(c).n
+      dA, pubA = vsigs.issuer(rng, c)
+      dC, pubC = vsigs.issuer(rng, c)
+      first = vsigs.sign_many(rng, c, dA, pubA, vsigs.nonces_uniform(rng, n, 2))
+      first += vsigs.sign_many(rng, c, dC, pubC, vsigs.nonces_uniform(rng, n, 1))
+      paranoid.CheckAllECDSASigs(first)
+      _issuer_verdicts(ctx, first, ['%s:healthy-first-call' % c] * len(first))
+      dB, pubB = vsigs.issuer(rng, c, dA + rng.randint(1, 200))
+      second = vsigs.sign_many(rng, c, dA, pubA, vsigs.nonces_uniform(rng, n, 2))
+      second += vsigs.sign_many(rng, c, dB, pubB, vsigs.nonces_uniform(rng, n, 2))
+      second += vsigs.sign_many(rng, c, dC, pubC, vsigs.nonces_uniform(rng, n, 1))
+      rng.shuffle(second)
+      ret = paranoid.CheckAllECDSASigs(second)
+      ctx.count('later_call_with_close_issuer')
+      _issuer_verdicts(ctx, second, ['%s:close-issuers-later-call' % c] *
+                       len(second))
+      if ret is not any(s_.test_info.weak for s_ in second):
+        ctx.violation('return-value-differs-from-any-weak@ecdsa',
+                      'later call returned %r' % (ret,), {'curve': c})
     ctx.sample({'family': 'ecdsa', 'kinds': descs[:8]})
+
+
+def _issuer_verdicts(ctx, sg, descs):
+  """A signature's issuer-key verdict must equal the verdict of the EC checks
+  on that key *as a member of the batch's issuer keys* (fresh ECKey protobufs,
+  same process)."""
+  from paranoid_crypto.lib import paranoid
+  from paranoid_crypto.lib import util
+  keys = {}
+  for s in sg:
+    kid = (s.issuer_key_info.curve_type, bytes(s.issuer_key_info.x).lstrip(
+        b'\x00'), bytes(s.issuer_key_info.y).lstrip(b'\x00'))
+    if kid not in keys:
+      keys[kid] = gen.pb2().ECKey(ec_info=s.issuer_key_info)
+  paranoid.CheckAllEC(list(keys.values()))
+  for s in sg:
+    ctx.count('evaluations')
+    ent = gen.entries(s.test_info).get('CheckIssuerKey')
+    kid = (s.issuer_key_info.curve_type, bytes(s.issuer_key_info.x).lstrip(
+        b'\x00'), bytes(s.issuer_key_info.y).lstrip(b'\x00'))
+    key = keys[kid]
+    hs = util.GetHighestSeverity(key.test_info)
+    if ent is None:
+      ctx.violation('issuer-key-entry-missing', '', {'descs': descs})
+      continue
+    if any(e.test_name == 'CheckRetiredLongAgo' for e in
+           s.test_info.test_results) or s.test_info.paranoid_lib_version in (
+               '0.9.0', '1.0.0-old', 'v0'):
+      continue    # pre-annotated: only monotone clauses apply
+    ctx.count('issuer_verdicts_compared')
+    if key.test_info.weak:
+      ctx.count('issuer_verdicts_weak')
+    if ent[0] != bool(key.test_info.weak) or (ent[0] and ent[1] != hs) or (
+        not ent[0] and ent[1] != 0):
+      ctx.violation('issuer-key-verdict-differs-from-ec-checks',
+                    'signature says (%s, severity %d); CheckAllEC on the '
+                    'issuer keys of the batch: weak=%s highest severity %r' % (
+                        ent[0], ent[1], key.test_info.weak, hs),
+                    {'descs': descs, 'curve': s.issuer_key_info.curve_type,
+                     'x': s.issuer_key_info.x})
 
 
 def run(ctx, spec):
@@ -311,5 +352,6 @@ def run(ctx, spec):
 def finalize(agg, tier):
   c = agg['counters']
   need = ['histories', 'preannotated_histories', 'entry_point_calls',
-          'issuer_verdicts_compared']
+          'issuer_verdicts_compared', 'issuer_verdicts_weak',
+          'later_call_with_close_issuer']
   return [], ['reach counter %s is zero' % k for k in need if not c.get(k)]
